@@ -66,6 +66,20 @@ theorem bytesValue_np (ext : Ext) (c : Bool) (x : SVal) :
   · split <;> rfl
   · split <;> rfl
 
+theorem viewPushValue_np (views : List Nat) (buf value : Bytes) : (viewPushValue views buf value).isPanic = false := by
+  unfold viewPushValue
+  split
+  · rfl
+  · split <;> rfl
+
+theorem viewSeq_np (views : List Nat) (buf bytes : Bytes) : (viewSeq views buf bytes).isPanic = false := by
+  unfold viewSeq
+  split
+  · rfl
+  · split
+    · rfl
+    · split <;> rfl
+
 theorem pushScalar_np (ext : Ext) (he : ExtNP ext) : ∀ (b : B) (x : SVal), NPInv b → (pushScalar ext b x).isPanic = false
   | .null _ _, x, _ => by unfold pushScalar; split <;> rfl
   | .unknownVariant _, x, _ => by unfold pushScalar; rfl
@@ -82,6 +96,7 @@ theorem pushScalar_np (ext : Ext) (he : ExtNP ext) : ∀ (b : B) (x : SVal), NPI
   | .bytesView _ ty _ _ _, x, _ => by
     unfold pushScalar
     refine bind_no_panic _ _ (bytesValue_np ext _ x) (fun _ => ?_)
+    refine bind_no_panic _ _ (viewPushValue_np _ _ _) (fun _ => ?_)
     exact bind_no_panic _ _ (setValidity_no_panic _ _ _) (fun _ => rfl)
   | .fixedSizeBinary _ _ _ _ _ _, x, _ => by
     unfold pushScalar
@@ -253,7 +268,8 @@ theorem seqLikeWith_np {pe : Bool → B → List Int → R (B × List Int)} {pc 
     simp only [seqLikeWith]
     split
     · refine bind_no_panic _ _ (setValidity_no_panic _ _ _) (fun _ => ?_)
-      exact bind_no_panic _ _ hbytes (fun bs => rfl)
+      refine bind_no_panic _ _ hbytes (fun bs => ?_)
+      exact bind_no_panic _ _ (viewSeq_np _ _ _) (fun _ => rfl)
     · rfl
   | fixedSizeBinary p n len v buf cur =>
     simp only [seqLikeWith]
